@@ -528,9 +528,18 @@ pub fn run(args: &Args, rep: &mut Report) {
                 if prefix.is_empty() {
                     nmut_default = x.outcome[0].states.len();
                 }
-                if x.end != RunEnd::Finished {
-                    rep.violation(format!("C03/{}/no-termination", sc.name), format!("{:?}", x.end), json!({"scenario": sc.name, "schedule": prefix}));
-                    return;
+                match &x.end {
+                    RunEnd::Finished => {}
+                    RunEnd::Deadlock(who) => {
+                        rep.violation(format!("C03/{}/deadlock", sc.name), format!("quiescent with nothing pending but {who:?} unfinished"), json!({"scenario": sc.name, "schedule": prefix}));
+                        return;
+                    }
+                    RunEnd::Hang(_) => {
+                        // inconclusive under CPU overload (see c13.rs)
+                        rep.inc("inconclusive_executions");
+                        rep.cap("some executions did not reach quiescence within the time limit and were discarded");
+                        return;
+                    }
                 }
                 if let Err(e) = &x.outcome[0].result {
                     rep.violation(format!("C03/{}/command-error", sc.name), format!("undisturbed command failed: {e}"), json!({"scenario": sc.name, "schedule": prefix}));
